@@ -84,6 +84,8 @@ func checkC12(p *Prog, r *Report) {
 	c12Membership(p, r, or)
 	c12Reencode(p, r, or, "C12.reencode")
 	c12IsSelect(p, r, or)
+	// the re-encoded request is produced by the partial codecs: their layout per version is part of this property
+	codecLayouts(p, r, "C12")
 }
 
 func c12Guard(p *Prog, r *Report, or *overrideRoles) {
